@@ -899,6 +899,22 @@ def do_op(pool, d, mon):
             r = m.restrict(np.arange(max(1, m.t.shape[1] // 2)))
         elif how == 'with_both_refined':
             r = m.with_boundaries({'low': lambda x: x[0] == 0.0}).with_subdomains({'a': lambda x: x[0] < 1.5}).refined()
+        elif how == 'morphed':
+            d = m.dim()
+            r = m.morphed(*[(lambda pp, i=i: pp[i] + 0.125 * pp[(i + 1) % d]) for i in range(d)])
+        elif how == 'mirrored':
+            r = m.mirrored(tuple([1.0] + [0.0] * (m.dim() - 1)))
+        elif how == 'smoothed':
+            r = m.smoothed()
+        elif how == 'adaptive':
+            r = m.refined(np.array([0, m.t.shape[1] - 1]))
+        elif how == 'join':
+            r = m + m.translated(tuple([float(m.p[0].max() - m.p[0].min())] + [0.0] * (m.dim() - 1)))
+        elif how == 'remove_elements':
+            r = m.remove_elements(np.array([0]))
+        elif how == 'to_dict':
+            r = m.to_dict()
+            return canon({k: (np.asarray(v) if isinstance(v, list) else v) for k, v in r.items() if not isinstance(v, dict)})
         else:
             raise KeyError(how)
         return canon(r)
@@ -972,9 +988,12 @@ def random_op(rng, sub=None):
     if k == 'lbasis':
         return {'op': 'lbasis', 'mesh': mname, 'elem': ename, 'pts': rng.randrange(6), 'i': rng.randrange(12)}
     if k == 'transform':
-        hows = ['refined', 'scaled', 'translated', 'with_boundaries', 'with_subdomains', 'restrict', 'with_both_refined']
+        hows = ['refined', 'scaled', 'translated', 'with_boundaries', 'with_subdomains', 'restrict', 'with_both_refined',
+                'morphed', 'mirrored', 'join', 'remove_elements', 'to_dict']
         if fam in ('hex', 'tet'):
             hows.remove('with_both_refined')
+        if fam in ('tri', 'tet', 'line'):
+            hows += ['adaptive', 'smoothed'] if fam != 'line' else ['adaptive']
         return {'op': 'transform', 'mesh': mname, 'how': rng.choice(hows)}
     if k == 'bc':
         return {'op': 'bc', 'mesh': mname, 'elem': ename, 'how': rng.choice(['condense', 'enforce', 'penalize'])}
